@@ -59,6 +59,22 @@ _PUNCT = [
 ]
 rich_descr = st.builds(lambda f, a, b, dot: f(a, b) + ("." if dot else ""), st.sampled_from(_PUNCT), sentence(1, 3), sentence(1, 3), st.booleans())
 mixed_descr = st.one_of(descr, descr, rich_descr)
+HYPHENATED = ["hyper-parameter", "pre-trained", "look-up", "re-use", "well-known", "on-the-fly", "x-axis", "non-zero"]
+
+
+@st.composite
+def boundary_descr(draw):
+    """a description whose length sweeps across the word-wrap column (100): plain words and hyphenated words, padded
+    to a drawn length, so that the wrap point falls at every position relative to the last words / the default"""
+    target = draw(st.integers(45, 115))
+    words = []
+    while len(" ".join(words)) < target:
+        words.append(draw(st.sampled_from(WORDS + HYPHENATED)) if draw(st.integers(0, 3)) else draw(st.sampled_from(HYPHENATED)))
+    text = " ".join(words)[:target].rstrip(" -")
+    return text + ("." if draw(st.booleans()) else "")
+
+
+multiword_str = st.sampled_from(["hello wide world", "fast mode", "a b", "two words", "AA-AA", "left-to-right text", "x y z w", "North West"])
 rich_names = st.one_of(
     names, names,
     st.from_regex(r"_?[a-z][a-zA-Z0-9]{0,6}([A-Z][a-z0-9]{1,4}){0,2}", fullmatch=True).filter(_name_ok),
@@ -85,7 +101,13 @@ floats = st.one_of(
     st.sampled_from([0.5, -0.5, 1e-07, 5.0, -2.25, 1e20, -3e-05, 0.0, 100.0]),
 )
 
-_PLAIN_RE = __import__("re").compile(r"^(?:[A-Za-z][A-Za-z0-9_/~-]{0,10}|[A-Za-z$@*][A-Za-z0-9_/~ !*&|$@^+=-]{0,8}[A-Za-z0-9!*])$")
+# nested / less common annotations (all resolvable from `typing` + builtins; none has a default)
+NESTED_TYPES = [
+    "Optional[List[str]]", "Dict[str, int]", "Tuple[int, str]", "Union[int, str, float]", "Callable[[int], str]",
+    "Optional[Union[int, str]]", "List[List[int]]", "Optional[Literal['a', 'b']]", "Set[str]", "Sequence[int]",
+    "Mapping[str, Any]", "Any", "object", "bytes", "complex", "tuple", "Type[int]", "Iterable[str]", "Tuple[int, ...]",
+]
+_PLAIN_RE = __import__("re").compile(r"^(?:[A-Za-z][A-Za-z0-9_/~-]{0,10}|[A-Za-z$@*][A-Za-z0-9_/~ !*&|$@^+=-]{0,16}[A-Za-z0-9!*])$")
 
 
 def is_plain_str(s):
@@ -94,10 +116,10 @@ def is_plain_str(s):
 
 
 KINDS = {
-    "docstring": ["int", "float", "str", "bool", "optint", "optstr", "optbool", "optfloat", "literal", "list", "union", "dotted"],
+    "docstring": ["int", "float", "str", "bool", "optint", "optstr", "optbool", "optfloat", "literal", "list", "union", "dotted", "nested"],
     "common": ["int", "float", "str", "bool", "optint", "optstr", "optbool", "optfloat", "literal"],
-    "executable": ["int", "float", "str", "bool", "optint", "optstr", "optbool", "optfloat", "literal", "list", "union"],
-    "json": ["int", "float", "str", "bool", "optint", "optstr", "optbool", "optfloat", "literal", "optliteral", "dict", "jlist", "optdict"],
+    "executable": ["int", "float", "str", "bool", "optint", "optstr", "optbool", "optfloat", "literal", "list", "union", "nested"],
+    "json": ["int", "float", "str", "bool", "optint", "optstr", "optbool", "optfloat", "literal", "optliteral", "dict", "jlist", "optdict", "optlist"],
 }
 KINDS["signature"] = KINDS["docstring"]
 
@@ -115,11 +137,13 @@ def default_label(d):
         return "d:float-exp" if "e" in repr(d) else ("d:neg-float" if d < 0 else "d:float")
     if isinstance(d, str):
         return "d:code" if d.startswith("(") or d.startswith("```") else "d:str"
+    if isinstance(d, (list, dict)):
+        return "d:collection"
     return "d:other"
 
 
 @st.composite
-def typed_param(draw, kinds, must_default=False, doc=descr, min_literal=1):
+def typed_param(draw, kinds, must_default=False, doc=descr, min_literal=1, collection_defaults=False):
     kind = draw(st.sampled_from(kinds))
     p = {}
     has_default = True if must_default else draw(st.booleans())
@@ -151,16 +175,21 @@ def typed_param(draw, kinds, must_default=False, doc=descr, min_literal=1):
     elif kind == "union":
         p["typ"] = draw(st.sampled_from(["Union[int, str]", "Union[str, float]"]))
         has_default = False
+    elif kind == "nested":
+        p["typ"] = draw(st.sampled_from(NESTED_TYPES))
+        has_default = False
     elif kind == "dotted":
         p["typ"] = draw(st.sampled_from(["np.ndarray", "tf.data.Dataset", "Callable"]))
         d = "(np.zeros(%d))" % draw(st.integers(0, 9))
         has_default = has_default and not must_default and draw(st.booleans())
     elif kind in ("dict", "optdict"):
         p["typ"] = "dict" if kind == "dict" else "Optional[dict]"
-        has_default = False
-    elif kind == "jlist":
-        p["typ"] = "list"
-        has_default = False
+        d = draw(st.sampled_from([{}, {"k": 1}, {"a": "b", "n": None}, {"k": {"n": [1, 2]}}])) if collection_defaults else None
+        has_default = has_default and collection_defaults
+    elif kind in ("jlist", "optlist"):
+        p["typ"] = "list" if kind == "jlist" else "Optional[list]"
+        d = draw(st.sampled_from([[], ["a"], [1, 2], [[1], [2]], [{"k": 1}]])) if collection_defaults else None
+        has_default = has_default and collection_defaults
     p["doc"] = draw(doc)
     if has_default and d is not None:
         p["default"] = d
@@ -168,7 +197,31 @@ def typed_param(draw, kinds, must_default=False, doc=descr, min_literal=1):
 
 
 def can_default(kind):
-    return kind not in ("list", "union", "dict", "optdict", "jlist")
+    return kind not in ("list", "union", "dict", "optdict", "jlist", "optlist", "nested")
+
+
+@st.composite
+def wrap_boundary_interface(draw):
+    """1..3 parameters built to put the 100-column wrap point inside / next to a hyphenated word, a multi-word string
+    default or the 'Defaults to' sentence (ReST and numpydoc wrap; google does not)"""
+    n = draw(st.integers(1, 3))
+    ns = draw(st.lists(st.from_regex(r"[a-z]{1,6}", fullmatch=True).filter(_name_ok), min_size=n, max_size=n, unique=True))
+    ps, kinds = [], []
+    for _ in ns:
+        k = draw(st.sampled_from(["str", "str", "int", "literal", "float"]))
+        p = {"doc": draw(boundary_descr())}
+        if k == "str":
+            p["typ"], p["default"] = "str", draw(multiword_str)
+        elif k == "int":
+            p["typ"], p["default"] = "int", draw(ints)
+        elif k == "float":
+            p["typ"], p["default"] = "float", draw(floats)
+        else:
+            ms = draw(st.lists(st.sampled_from(["fast mode", "slow mode", "auto", "semi-auto", "off"]), min_size=2, max_size=3, unique=True))
+            p["typ"], p["default"] = "Literal[%s]" % ", ".join(map(repr, ms)), draw(st.sampled_from(ms))
+        ps.append(p)
+        kinds.append("wrap-boundary:" + k)
+    return {"name": "Foo", "doc": draw(st.sampled_from(["", "Some summary."])), "params": [[a, p] for a, p in zip(ns, ps)], "kinds": kinds, "returns": None}
 
 
 @st.composite
@@ -176,7 +229,7 @@ def interface(draw, profile="docstring", min_params=0, max_params=7, suffix=True
     kinds_allowed = KINDS[profile]
     n = draw(st.one_of(st.integers(min_params, max_params), st.integers(max(min_params, 2), min(max_params, 5))))
     ns = draw(st.lists(names if name_strategy is None else name_strategy, min_size=n, max_size=n, unique=True))
-    ps = [draw(typed_param(kinds_allowed, min_literal=min_literal, doc=doc)) for _ in ns]
+    ps = [draw(typed_param(kinds_allowed, min_literal=min_literal, doc=doc, collection_defaults=(profile == "json" and not suffix))) for _ in ns]
     if suffix:
         seen = False
         defk = [k for k in kinds_allowed if can_default(k) and k != "dotted"]
